@@ -1,4 +1,5 @@
 import ClusterVerif.Spec.C04
+import ClusterVerif.Spec.C04Conc
 import Driver.PinParse
 namespace CV.C04
 open CV CV.Parse CV.PinParse
@@ -46,10 +47,17 @@ def parseRes (s : String) : Option (Option Pin) :=
   else if s.startsWith "ok:" then (parsePin (s.drop 3).toString).map some
   else none
 
+/-- a trailing `!k`: the k-th consensus call of the API call fails -/
+def splitFault (ws : List String) : List String × Option Nat :=
+  match ws.getLast? with
+  | some t => if t.startsWith "!" then (ws.dropLast, (t.drop 1).toNat?) else (ws, none)
+  | none => (ws, none)
+
 structure Case where
   cfg : Cfg
   pre : PinMap
   op : Op
+  fault : Option Nat := none
   res : Option Pin
   post : PinMap
   log : List LogEntry
@@ -58,8 +66,8 @@ def parseCase (ws : List String) : Option Case := do
   let (pre, post) ← splitArrow ws
   match pre, post with
   | cfg :: peers :: paths :: blocks :: pm :: opw, [res, pm', log] =>
-    pure { cfg := ← parseCfg cfg peers paths blocks, pre := ← parsePinset pm, op := ← parseOp opw,
-           res := ← parseRes res, post := ← parsePinset pm', log := ← parseLog log }
+    pure { cfg := ← parseCfg cfg peers paths blocks, pre := ← parsePinset pm, op := ← parseOp (splitFault opw).1,
+           fault := (splitFault opw).2, res := ← parseRes res, post := ← parsePinset pm', log := ← parseLog log }
   | _, _ => none
 
 def opCid (cfg : Cfg) : Op → Option Nat
@@ -80,7 +88,49 @@ def canonLog (l : List LogEntry) : List LogEntry :=
 /-- multiset comparison of logs (the order of the unpins of a sharded group follows CBOR link order) -/
 def sameLog (a b : List LogEntry) : Bool := a.length == b.length && (canonLog a).isPerm (canonLog b)
 
+/-! ### two overlapping calls (`C04 conc …`) -/
+
+def splitAt (sep : String) (ws : List String) : List String × List String :=
+  (ws.takeWhile (· ≠ sep), (ws.dropWhile (· ≠ sep)).drop 1)
+
+def answerConc (ws : List String) : String :=
+  if ws.contains "panic" || ws.contains "timeout" then "propfail call_panicked_or_hung arm=conc" else
+  match splitArrow ws with
+  | some (cfg :: peers :: paths :: blocks :: pm :: rest, [r1, r2, pm', _log]) =>
+    let (aw, rest2) := splitAt "||" rest
+    let bw := rest2.filter (fun t => !t.startsWith "@")
+    let mode := ((rest2.filter (fun t => t.startsWith "@")).head?.getD "@abf").drop 1 |>.toString
+    match parseCfg cfg peers paths blocks, parsePinset pm, parseOp aw, parseOp bw, parseRes r1, parseRes r2, parsePinset pm' with
+    | some cfg, some pre, some a, some b, some rx, some ry, some post =>
+      if !pre.wf then "bad-case pre-not-sorted" else
+      let bFirst := mode.startsWith "ba"
+      let stale := mode.endsWith "s"
+      let (x, y) := if bFirst then (b, a) else (a, b)
+      let cx : Call := { op := x, chosen := (rx.map (·.allocs)).getD [] }
+      let cy : Call := { op := y, chosen := (ry.map (·.allocs)).getD [] }
+      let outX := step cfg pre x cx.chosen
+      let readY := readOfSecond cfg pre cx stale
+      let outY := step cfg readY y cy.chosen
+      let final := concurrent cfg pre cx cy stale
+      let canonRes (r : Option Pin) := r.map canonPin
+      let (ra, rb) := if bFirst then (ry, rx) else (rx, ry)
+      let failed := (concClauses cfg (canonMap pre) a b (canonRes ra) (canonRes rb) (canonMap post)).filter (fun c => !c.2)
+      let arm := "conc-" ++ opName x ++ "-" ++ opName y ++ (if stale then "-stale" else "-fresh") ++
+        (if outX.res.isSome then "-ok" else "-err") ++ (if outY.res.isSome then "-ok" else "-err")
+      let allocOk (o : Out) (ch : List Nat) := match o.alloc, o.res with
+        | some ai, some _ => C03.allowed ai (.ok ch)
+        | _, _ => true
+      let agree := outX.res.isSome == rx.isSome && outY.res.isSome == ry.isSome && canonMap final == canonMap post &&
+        allocOk outX cx.chosen && allocOk outY cy.chosen
+      if !failed.isEmpty then "propfail " ++ ",".intercalate (failed.map (·.1)) ++ " arm=" ++ arm
+      else if !agree then "diff arm=" ++ arm ++ " model-res=" ++ (if outX.res.isSome then "ok" else "err") ++ "," ++
+        (if outY.res.isSome then "ok" else "err") ++ " model-post-size=" ++ toString final.length
+      else "ok arm=" ++ arm
+    | _, _, _, _, _, _, _ => "bad-case conc-parse"
+  | _ => "bad-case conc"
+
 def answer (ws : List String) : String :=
+  if ws.head? == some "conc" then answerConc ws.tail else
   match parseCase ws with
   | none => "bad-case parse"
   | some k =>
@@ -90,7 +140,10 @@ def answer (ws : List String) : String :=
     let chosen := match opCid k.cfg k.op with
       | some c => ((k.post.get c).map (·.allocs)).getD []
       | none => []
-    let out := step k.cfg k.pre k.op chosen
+    let out := stepF k.cfg k.pre k.op chosen k.fault
+    let reached := match k.fault with
+      | some f => if f < (step k.cfg k.pre k.op chosen).log.length then "-fault" ++ toString f else ""
+      | none => ""
     let sub := match k.op with
       | .pin .. | .pinPath .. =>
         (match pinRequest k.cfg k.op with
@@ -100,8 +153,11 @@ def answer (ws : List String) : String :=
            else if (k.pre.get c).isSome then "-changed" else "-new"
          | none => "-unresolved")
       | .unpin c => (match k.pre.get c with | some p => if p.type == .metaT then "-meta" else if p.type == .dataT then "-data" else "-other" | none => "-absent")
+      | .unpinPath pth => (match lookup k.cfg.paths pth with
+          | some c => (match k.pre.get c with | some p => if p.type == .metaT then "-meta" else if p.type == .dataT then "-data" else "-other" | none => "-absent")
+          | none => "-unresolved")
       | _ => ""
-    let arm := opName k.op ++ sub ++ (if k.cfg.follower then "-follower" else "") ++ (if out.res.isSome then "-ok" else "-err")
+    let arm := opName k.op ++ sub ++ reached ++ (if k.cfg.follower then "-follower" else "") ++ (if out.res.isSome then "-ok" else "-err")
     let agree :=
       out.res.isSome == k.res.isSome &&
       canonMap out.post == canonMap k.post &&
